@@ -792,6 +792,40 @@ def run_q10(q10, P, tu, vt):
             norm[f.name] = nb
         if any(_ring_store(ev) for _, _, ev in f.events(('assign', 'call'))):
             writers.add(f.name)
+    # Q11 half: taking jobs OUT of the ring (earliest_job advanced, next_job untouched) can empty it: the advance is followed by the
+    # normalisation on every path to a return
+    for name in sorted(writers):
+        f = funcs[name]
+        advs = [(b, i, ev) for b, i, ev in f.events(('call',)) if ev['e'].get('fn') in ('ADV_JOBS', 'ADV_N_JOBS') and ev['e'].get('a')]
+        if not any(addr_ring_field(ev['e']['a'][0]) == 'earliest_job' for _, _, ev in advs) or \
+                any(addr_ring_field(ev['e']['a'][0]) == 'next_job' for _, _, ev in advs):
+            continue
+        nb = set(norm.get(name, ()))
+        for b, i, ev in advs:
+            if addr_ring_field(ev['e']['a'][0]) != 'earliest_job':
+                continue
+            bad = None
+            seen, st = set(), [b]
+            first = True
+            while st and bad is None:
+                x = st.pop()
+                if x in seen:
+                    continue
+                seen.add(x)
+                evs = f.blocks[x]['ev'][i + 1:] if first else f.blocks[x]['ev']
+                first = False
+                for e2 in evs:
+                    if e2['k'] == 'return':
+                        v = cf.strip_casts(e2.get('val') or {})
+                        if not (isinstance(v, dict) and v.get('k') == 'call' and v.get('fn') in norm):
+                            bad = e2
+                        break
+                else:
+                    if x not in nb:
+                        st.extend(f.succ(x))
+            q10.check(bad is None, '%s:%s:adv@%s' % (vt, name, ev['loc'].split('/')[-1]), (bad or ev)['loc'],
+                      '%s advances earliest_job at %s and can return at %s without turning earliest_job == next_job into the empty marker: the '
+                      'ring that just gave up its last job reads as FULL' % (name, ev['loc'], (bad or ev)['loc']))
     relied_on = set()
     for g in writers:
         for _, _, ev in funcs[g].calls():
